@@ -55,7 +55,7 @@ def main():
     sys.path.insert(0, d)
     n = 0
     try:
-        for prod_kind, placement, when in itertools.product(("keep", "data_function"), ("top", "helper", "kept"), ("before", "after", "earlier", "never")):
+        for prod_kind, placement, when in itertools.product(("keep", "data_function"), ("inline", "top", "helper", "kept"), ("before", "after", "after_populated", "earlier", "never")):
             n += 1
             if prod_kind == "keep":
                 producer_def = ""
@@ -63,11 +63,11 @@ def main():
             else:
                 producer_def = '@dds.data_function("/c09/p")\ndef prod_df():\n    return prod_body()\n'
                 produce_call = "prod_df()"
-            read = {"top": "read_value()", "helper": "helper()", "kept": 'dds.keep("/c09/r", kept_reader)'}[placement]
+            read = {"inline": '"read:" + dds.load("/c09/p")', "top": "read_value()", "helper": "helper()", "kept": 'dds.keep("/c09/r", kept_reader)'}[placement]
             helper_body = "return read_value()"
             if when == "before":
                 root_body = "x = %s\n    return %s" % (produce_call, read)
-            elif when == "after":
+            elif when in ("after", "after_populated"):
                 root_body = "y = %s\n    x = %s\n    return y" % (read, produce_call)
             else:
                 root_body = "return %s" % read
@@ -79,6 +79,10 @@ def main():
             dds.set_store("memory")
             tag = "producer=%s placement=%s producer-%s" % (prod_kind, placement, when)
             results = []
+            if when == "after_populated":
+                # the path was committed by an earlier evaluation; then a dependency of the producer is edited
+                m.V = 0
+                dds.eval(m.only_producer)
             for v in (1, 2):
                 m.V = v
                 evals += 1
